@@ -787,6 +787,8 @@ func runProfile(g *Gen, profile string, nops int) {
 		}
 	case "stress":
 		g.runStress(nops)
+	case "mloop":
+		g.runMxLoop(nops)
 	case "abi":
 		g.runAbi(nops)
 	case "hash":
